@@ -1,4 +1,5 @@
 import CpProofs.C06Pipeline
+import CpProofs.C06Round2
 /-!
   C06 — response framing is self-consistent for every handler and tool mix.
 
@@ -48,17 +49,70 @@ theorem redirect_table_spec : ∀ kv ∈ Gen.C06.redirKinds,
 
 /-! ### what is observed at the WSGI boundary -/
 
-/-- The statement, for one observed response to a request with method `m`. -/
+/-- The statement, for one observed response to a request with method `m`: a bodiless status carries neither
+    body bytes nor Content-Length (streamed or not); any other non-streamed response has a Content-Length equal
+    to the bytes delivered (none for HEAD); a streamed one never a Content-Length that disagrees. -/
 def ObsFramed (m : Method) (o : Obs) : Prop :=
-  (o.stream = false →
-    (noBody o.code = true → o.cl = none ∧ o.delivered = []) ∧
-    (noBody o.code = false → ∃ n, o.cl = some (.nat n) ∧ o.ending = .clean ∧
-      (m ≠ .head → o.delivered.length = n) ∧ (m = .head → o.delivered = []))) ∧
+  (noBody o.code = true → o.cl = none ∧ o.delivered = []) ∧
+  (o.stream = false → noBody o.code = false → ∃ n, o.cl = some (.nat n) ∧ o.ending = .clean ∧
+      (m ≠ .head → o.delivered.length = n) ∧ (m = .head → o.delivered = [])) ∧
   (o.stream = true →
     (m = .head → o.delivered = []) ∧
     (∀ n, o.cl = some (.nat n) → m ≠ .head → o.ending = .clean ∧ o.delivered.length = n))
 
 theorem deliver_nil : deliver [] = ([], End.clean) := rfl
+
+/-- what `serve` observes when it does not replace the response by the bare 500 -/
+theorem obsFramed_of (m : Method) (r : Resp) (cached : Bool) (d : Bytes) (e : End) (hf : Framed r)
+    (hd : deliver (if m = .head then [] else r.body.chunks) = (d, e)) :
+    ObsFramed m ⟨codeOf r, r.hdrs .contentLength, r.hdrs .contentType, (r.hdrs .contentEncoding).isSome, d, e,
+                 r.stream, cached, r.src, r.gz⟩ := by
+  obtain ⟨hcl, hnb, hfr⟩ := hf
+  by_cases hm : m = .head
+  · simp only [hm, if_true, deliver_nil] at hd
+    cases hd
+    refine ⟨fun h => ⟨(hnb h).1, rfl⟩, fun hs h => ?_, fun _ => ⟨fun _ => rfl, fun n _ h => absurd hm h⟩⟩
+    obtain ⟨n, hn⟩ := hfr hs h
+    exact ⟨n, hn, rfl, fun h => absurd hm h, fun _ => rfl⟩
+  · simp only [hm, if_false] at hd
+    rcases CLok_cases hcl with h0 | h0 | ⟨n, h0, hb, hl⟩
+    · refine ⟨fun h => ?_, fun hs h => ?_, fun _ => ⟨fun h => absurd h hm, fun n hn _ => ?_⟩⟩
+      · have := (hnb h).2
+        rw [this, deliver_nil] at hd
+        cases hd
+        exact ⟨h0, rfl⟩
+      · obtain ⟨n, hn⟩ := hfr hs h
+        rw [h0] at hn; cases hn
+      · simp only at hn; rw [h0] at hn; cases hn
+    · refine ⟨fun h => ?_, fun hs h => ?_, fun _ => ⟨fun h => absurd h hm, fun n hn _ => ?_⟩⟩
+      · have := (hnb h).1
+        rw [h0] at this; cases this
+      · obtain ⟨n, hn⟩ := hfr hs h
+        rw [h0] at hn; cases hn
+      · simp only at hn; rw [h0] at hn; cases hn
+    · rw [deliver_allBytes _ hb] at hd
+      cases hd
+      refine ⟨fun h => ?_, fun _ _ => ⟨n, h0, rfl, fun _ => hl, fun h => absurd h hm⟩,
+              fun _ => ⟨fun h => absurd h hm, fun n' hn _ => ?_⟩⟩
+      · have := (hnb h).1
+        rw [h0] at this; cases this
+      · simp only at hn
+        rw [h0] at hn
+        cases hn
+        exact ⟨rfl, hl⟩
+
+theorem noBody_500' : noBody 500 = false := by decide
+
+/-- the bare 500 the exception trapper answers with is framed by construction -/
+theorem bareObs_framed (m : Method) (pg : Pages) (stream cached : Bool) (hm : m ≠ .head) :
+    ObsFramed m ⟨500, some (.nat pg.bare.length), some (.ctype .textPlain none), false, pg.bare, .clean, stream,
+                 cached, .bare, false⟩ := by
+  refine ⟨fun h => ?_, fun _ _ => ⟨pg.bare.length, rfl, rfl, fun _ => rfl, fun h => absurd h hm⟩,
+          fun _ => ⟨fun h => absurd h hm, fun n hn _ => ?_⟩⟩
+  · simp only [noBody_500'] at h; cases h
+  · simp only at hn
+    cases hn
+    exact ⟨rfl, rfl⟩
 
 /-- Framing of whatever `serve` observes, from the framing of the finalized response. -/
 theorem serve_framed (pg : Pages) (rq : Req) (p : Plan) (cache : Option Cache)
@@ -68,126 +122,38 @@ theorem serve_framed (pg : Pages) (rq : Req) (p : Plan) (cache : Option Cache)
   unfold serve
   generalize respond pg rq p cache = rs at hr
   obtain ⟨s, cached⟩ := rs
-  obtain ⟨⟨hcl, hfr⟩, hcache⟩ := hr
-  simp only at hcl hfr hcache ⊢
-  by_cases hm : rq.method = .head
-  · -- HEAD: nothing is iterated
-    simp only [hm, if_true, deliver_nil]
-    simp only [reduceCtorEq, false_and, if_false, ne_eq, not_true_eq_false]
-    refine ⟨⟨?_, ?_⟩, hcache⟩
-    · intro hs
-      have := hfr hs
-      refine ⟨fun hnb => ?_, fun hnb => ?_⟩
-      · have hnb' : noBody (codeOf s.r) = true := hnb
-        rw [if_pos hnb'] at this
-        exact ⟨this.1, rfl⟩
-      · have hnb' : ¬ noBody (codeOf s.r) = true := by rw [show noBody (codeOf s.r) = false from hnb]; simp
-        rw [if_neg hnb'] at this
-        obtain ⟨n, hn⟩ := this
-        exact ⟨n, hn, rfl, fun h => absurd rfl h, fun _ => rfl⟩
-    · intro _
-      exact ⟨fun _ => rfl, fun n _ h => absurd rfl h⟩
-  · simp only [hm, if_false]
-    rcases CLok_cases hcl with h0 | h0 | ⟨n, h0, hb, hl⟩
-    · -- no Content-Length
-      have hnostream : s.r.stream = false → noBody (codeOf s.r) = true ∧ s.r.body.chunks = [] := by
-        intro hs
-        have := hfr hs
-        by_cases hnb : noBody (codeOf s.r) = true
-        · rw [if_pos hnb] at this; exact ⟨hnb, this.2⟩
-        · rw [if_neg hnb] at this; obtain ⟨n, hn⟩ := this; rw [h0] at hn; cases hn
-      generalize hd : deliver s.r.body.chunks = de
-      obtain ⟨d, e⟩ := de
-      simp only
-      split
-      · -- replaced by the bare 500
-        rename_i hbare
-        refine ⟨⟨?_, ?_⟩, hcache⟩
-        · intro hs
-          have ⟨_, hch⟩ := hnostream hs
-          rw [hch, deliver_nil] at hd
-          cases hd
-          simp at hbare
-        · intro _
-          refine ⟨fun h => absurd h hm, fun n hn _ => ?_⟩
-          simp only at hn
-          cases hn
-          exact ⟨rfl, rfl⟩
-      · refine ⟨⟨?_, ?_⟩, ?_⟩
-        · intro hs
-          have ⟨hnb, hch⟩ := hnostream hs
-          rw [hch, deliver_nil] at hd
-          cases hd
-          refine ⟨fun _ => ⟨h0, rfl⟩, fun hnb' => ?_⟩
-          have : noBody (codeOf s.r) = false := hnb'
-          rw [hnb] at this; cases this
-        · intro _
-          refine ⟨fun h => absurd h hm, fun n hn _ => ?_⟩
-          simp only at hn
-          rw [h0] at hn; cases hn
-        · split
-          · split
-            · rename_i c' htee
-              exact teeDone_ok s.cache rq s.r _ c' hcache hcl htee
-            · exact hcache
-          · exact hcache
-    · -- Content-Length: None cannot survive finalize of a buffered response; harmless when streaming
-      have hnostream : s.r.stream = false → noBody (codeOf s.r) = true ∧ s.r.body.chunks = [] := by
-        intro hs
-        have := hfr hs
-        by_cases hnb : noBody (codeOf s.r) = true
-        · rw [if_pos hnb] at this; rw [h0] at this; cases this.1
-        · rw [if_neg hnb] at this; obtain ⟨n, hn⟩ := this; rw [h0] at hn; cases hn
-      generalize hd : deliver s.r.body.chunks = de
-      obtain ⟨d, e⟩ := de
-      simp only
-      have hcontra : s.r.stream = false → False := by
-        intro hs
-        have := hfr hs
-        by_cases hnb : noBody (codeOf s.r) = true
-        · rw [if_pos hnb] at this; rw [h0] at this; cases this.1
-        · rw [if_neg hnb] at this; obtain ⟨n, hn⟩ := this; rw [h0] at hn; cases hn
-      split
-      · refine ⟨⟨fun hs => (hcontra hs).elim, ?_⟩, hcache⟩
-        intro _
-        refine ⟨fun h => absurd h hm, fun n hn _ => ?_⟩
-        simp only at hn
-        cases hn
-        exact ⟨rfl, rfl⟩
-      · refine ⟨⟨fun hs => (hcontra hs).elim, ?_⟩, ?_⟩
-        · intro _
-          refine ⟨fun h => absurd h hm, fun n hn _ => ?_⟩
-          simp only at hn
-          rw [h0] at hn; cases hn
-        · split
-          · split
-            · rename_i c' htee
-              exact teeDone_ok s.cache rq s.r _ c' hcache hcl htee
-            · exact hcache
-          · exact hcache
-    · -- a numeric Content-Length: the body is clean bytes of exactly that length
-      rw [deliver_allBytes _ hb]
-      simp only [reduceCtorEq, false_and, if_false]
-      refine ⟨⟨?_, ?_⟩, ?_⟩
-      · intro hs
-        have := hfr hs
-        refine ⟨fun hnb => ?_, fun _ => ⟨n, h0, rfl, fun _ => hl, fun h => absurd h hm⟩⟩
-        have hnb' : noBody (codeOf s.r) = true := hnb
-        rw [if_pos hnb'] at this
-        rw [h0] at this; cases this.1
-      · intro _
-        refine ⟨fun h => absurd h hm, fun n' hn _ => ?_⟩
-        simp only at hn
-        rw [h0] at hn
-        cases hn
-        exact ⟨rfl, hl⟩
-      · split
-        · split
-          · rename_i c' htee
-            exact teeDone_ok s.cache rq s.r _ c' hcache hcl htee
-          · exact hcache
-        · exact hcache
+  obtain ⟨hf, hcache⟩ := hr
+  simp only at hf hcache ⊢
+  generalize hd : deliver (if rq.method = Method.head then [] else s.r.body.chunks) = de
+  obtain ⟨d, e⟩ := de
+  simp only
+  split
+  · -- replaced by the bare 500 (only possible when something was to be iterated: not for HEAD)
+    rename_i hbare
+    have hm : rq.method ≠ .head := by
+      intro hm
+      simp only [hm, if_true, deliver_nil] at hd
+      cases hd
+      simp at hbare
+    exact ⟨bareObs_framed rq.method pg s.r.stream cached hm, hcache⟩
+  · refine ⟨obsFramed_of rq.method s.r cached d e hf hd, ?_⟩
+    split
+    · split
+      · rename_i hne _ c' htee
+        have hm : ¬ rq.method = .head := hne.1
+        simp only [hm, if_false] at htee
+        exact teeDone_ok s.cache rq s.r _ c' hcache hf.1 htee
+      · exact hcache
+    · exact hcache
 
+
+/-- **C06, bodiless statuses**: a 1xx / 204 / 205 / 304 response carries neither body bytes nor a Content-Length —
+    for every response, streamed or not, whoever chose the status (handler, hook, conditional request). -/
+theorem C06_nobody_all (pg : Pages) (rq : Req) (p : Plan) (cache : Option Cache)
+    (hok : HandlerOk p) (hc : CacheOk cache) :
+    let o := (serve pg rq p cache).1
+    noBody o.code = true → o.cl = none ∧ o.delivered = [] :=
+  (serve_framed pg rq p cache hok hc).1.1
 
 /-- **C06, non-streamed part**: Content-Length present and equal to the delivered bytes; 1xx / 204 /
     205 / 304 carry neither; HEAD delivers nothing. -/
@@ -197,7 +163,7 @@ theorem C06_nonstream (pg : Pages) (rq : Req) (p : Plan) (cache : Option Cache)
     (noBody o.code = true → o.cl = none ∧ o.delivered = []) ∧
     (noBody o.code = false → ∃ n, o.cl = some (.nat n) ∧ o.ending = .clean ∧
       (rq.method ≠ .head → o.delivered.length = n) ∧ (rq.method = .head → o.delivered = [])) :=
-  (serve_framed pg rq p cache hok hc).1.1 hs
+  ⟨(serve_framed pg rq p cache hok hc).1.1, (serve_framed pg rq p cache hok hc).1.2.1 hs⟩
 
 /-- **C06, streamed part** (partial: needs `HandlerOk`, see `C06_stream_full_false`): a streamed
     response's Content-Length, when there is one, is exactly what the body produces, and the
@@ -207,7 +173,7 @@ theorem C06_stream_partial (pg : Pages) (rq : Req) (p : Plan) (cache : Option Ca
     let o := (serve pg rq p cache).1
     (rq.method = .head → o.delivered = []) ∧
     (∀ n, o.cl = some (.nat n) → rq.method ≠ .head → o.ending = .clean ∧ o.delivered.length = n) :=
-  (serve_framed pg rq p cache hok hc).1.2 hs
+  (serve_framed pg rq p cache hok hc).1.2.2 hs
 
 /-- The cache built by any request history only holds entries whose stored Content-Length equals the
     stored body (this is what makes the theorems above hold for *later* requests too). -/
@@ -242,12 +208,25 @@ theorem C06_history_from_empty (pg : Pages) (p : Plan) (hok : ∀ g, HandlerOk (
     AllFramed rqs (serveAll pg p rqs none 0) :=
   C06_history pg p hok rqs none 0 CacheOk_none
 
-/-- a handler that never sets its own Content-Length meets the hypothesis on every invocation -/
-theorem handlerOk_of_no_own_length (p : Plan) (h : p.h.setCL = none) : ∀ g, HandlerOk (planAt p g) := by
-  intro g n hn
-  cases g with
-  | zero => simp [planAt, h] at hn
-  | succ g => simp [planAt, h] at hn
+theorem planAt_t (p : Plan) (g : Nat) : (planAt p g).t = p.t := by cases g <;> rfl
+theorem planAt_setCL (p : Plan) (g : Nat) : (planAt p g).h.setCL = p.h.setCL := by cases g <;> rfl
+
+/-- an application that never sets a Content-Length itself (neither the handler nor `tools.response_headers`)
+    and whose XML-RPC texts, if any, are declared with their encoded length meets the hypothesis on every
+    invocation -/
+theorem handlerOk_of_no_own_length (p : Plan) (h : p.h.setCL = none) (hrh : p.t.rhCL = none)
+    (hx : ∀ g t, (planAt p g).h.shape = .xmlrpcV t → XmlOk t)
+    (he : ∀ t, p.t.errResp = .xmlrpc t → XmlOk t) : ∀ g, HandlerOk (planAt p g) := by
+  intro g
+  refine ⟨fun n hn => ?_, fun t ht => .inl (hx g t ht), fun t ht => he t (by rw [planAt_t] at ht; exact ht)⟩
+  simp [ownCL, planAt_t, planAt_setCL, h, hrh] at hn
+
+/-- every ASCII text is declared with its encoded length, whichever way `_set_response` counts -/
+theorem xmlOk_of_same_length (t : List Char) (h : t.length = (encodeText .utf8 t).length) : XmlOk t := by
+  unfold XmlOk xmlLen
+  split
+  · exact h
+  · rfl
 
 /-! ### HEAD -/
 
@@ -262,6 +241,28 @@ theorem etagsStep_head (rq : Req) (r : Resp) (hm : rq.method = .head) :
   simp only [etagsStep, etagsCond, hs]
   rfl
 
+theorem applyStep_head (pg : Pages) (rq : Req) (cached : Bool) (hm : rq.method = .head) (st : Step) (r : Resp) :
+    applyStep pg rq cached st r = applyStep pg (asGet rq) cached st r := by
+  cases st with
+  | etags => exact etagsStep_head rq r hm
+  | expires _ => rfl
+  | flatten => rfl
+  | gzip => rfl
+  | tee => rfl
+  | probe _ _ => rfl
+  | sessions => rfl
+  | autovary => rfl
+
+theorem runFailsafe_head (pg : Pages) (rq : Req) (cached : Bool) (hm : rq.method = .head) :
+    ∀ (steps : List Step) (r : Resp) (e : Exn),
+      runFailsafe pg rq cached steps r e = runFailsafe pg (asGet rq) cached steps r e := by
+  intro steps
+  induction steps with
+  | nil => intro r e; rfl
+  | cons st rest ih =>
+    intro r e
+    simp only [runFailsafe, applyStep_head pg rq cached hm st r, ih]
+
 theorem runSteps_head (pg : Pages) (rq : Req) (cached : Bool) (hm : rq.method = .head) :
     ∀ (steps : List Step) (r : Resp), runSteps pg rq cached steps r = runSteps pg (asGet rq) cached steps r := by
   intro steps
@@ -269,15 +270,7 @@ theorem runSteps_head (pg : Pages) (rq : Req) (cached : Bool) (hm : rq.method = 
   | nil => intro r; rfl
   | cons st rest ih =>
     intro r
-    have h1 : applyStep pg rq cached st r = applyStep pg (asGet rq) cached st r := by
-      cases st with
-      | etags => exact etagsStep_head rq r hm
-      | expires => rfl
-      | flatten => rfl
-      | gzip => rfl
-      | tee => rfl
-      | probe _ _ => rfl
-    simp only [runSteps, h1, ih]
+    simp only [runSteps, applyStep_head pg rq cached hm st r, ih, runFailsafe_head pg rq cached hm]
 
 theorem finalize_head (rq : Req) (s : St) : finalize rq s = finalize (asGet rq) s := rfl
 
@@ -286,11 +279,35 @@ theorem hooksAndFinalize_head (pg : Pages) (rq : Req) (cached : Bool) (hooks : L
     hooksAndFinalize pg rq cached hooks s = hooksAndFinalize pg (asGet rq) cached hooks s := by
   simp only [hooksAndFinalize, runSteps_head pg rq cached hm, finalize_head rq]
 
-theorem handleError_head (pg : Pages) (rq : Req) (fails : Bool) (s : St) :
-    handleError pg rq fails s = handleError pg (asGet rq) fails s := rfl
+theorem handleError_head (pg : Pages) (rq : Req) (fails : Bool) (er : ErrResp) (s : St) :
+    handleError pg rq fails er s = handleError pg (asGet rq) fails er s := rfl
 
-theorem handlerStage_head (pg : Pages) (rq : Req) (p : Plan) (r : Resp) :
-    handlerStage pg rq p r = handlerStage pg (asGet rq) p r := rfl
+theorem safe_head (rq : Req) (hm : rq.method = .head) : rq.safe = (asGet rq).safe := by
+  simp only [Req.safe, asGet, hm]; decide
+
+theorem validateSince_head (rq : Req) (r : Resp) (hm : rq.method = .head) :
+    validateSince rq r = validateSince (asGet rq) r := by
+  simp only [validateSince, safe_head rq hm]
+  rfl
+
+theorem serveFile_head (pg : Pages) (rq : Req) (b : Bytes) (r : Resp) (hm : rq.method = .head) :
+    serveFile pg rq b r = serveFile pg (asGet rq) b r := by
+  simp only [serveFile, validateSince_head rq _ hm]
+  rfl
+
+theorem handlerStage_head (pg : Pages) (rq : Req) (p : Plan) (r : Resp) (hm : rq.method = .head) :
+    handlerStage pg rq p r = handlerStage pg (asGet rq) p r := by
+  simp only [handlerStage, handlerStatic, serveFile_head pg rq _ _ hm]
+  rfl
+
+theorem beforeHandlerTools_head (pg : Pages) (rq : Req) (p : Plan) (r : Resp) (hm : rq.method = .head) :
+    beforeHandlerTools pg rq p r = beforeHandlerTools pg (asGet rq) p r := by
+  simp only [beforeHandlerTools, staticToolStage, serveFile_head pg rq _ _ hm, safe_head rq hm]
+  rfl
+
+theorem earlyExn_head (rq : Req) (t : Tools) (hm : rq.method = .head) : earlyExn rq t = earlyExn (asGet rq) t := by
+  simp only [earlyExn, asGet, hm]
+  rfl
 
 theorem beforeAndHandler_head (pg : Pages) (rq : Req) (p : Plan) (cache : Option Cache) (hm : rq.method = .head) :
     beforeAndHandler pg rq p cache = beforeAndHandler pg (asGet rq) p cache := by
@@ -299,12 +316,18 @@ theorem beforeAndHandler_head (pg : Pages) (rq : Req) (p : Plan) (cache : Option
   have h3 : ∀ c : Cache, c.find rq = c.find (asGet rq) := fun _ => rfl
   have h4 : ∀ ent, cacheDecision rq ent = cacheDecision (asGet rq) ent := fun _ => rfl
   have h5 : (asGet rq).cc = rq.cc := rfl
-  simp only [beforeAndHandler, h1, h2, if_false, handlerStage_head pg rq p, h3, h4, h5]
+  have h6 : ∀ todo r, runHandler pg rq p todo r = runHandler pg (asGet rq) p todo r := by
+    intro todo r
+    simp only [runHandler, handlerStage_head pg rq p r hm]
+  have h7 : ∀ r, validateSince rq r = validateSince (asGet rq) r := fun r => validateSince_head rq r hm
+  have h8 : freshResp rq p.t = freshResp (asGet rq) p.t := rfl
+  simp only [beforeAndHandler, h1, h2, if_false, h3, h4, h5, h6, h7, h8, earlyExn_head rq p.t hm,
+    beforeHandlerTools_head pg rq p _ hm]
 
-theorem recover_head (pg : Pages) (rq : Req) (fails cached : Bool) (hooks : List Step) (first : St × Option Exn)
-    (hm : rq.method = .head) :
-    recover pg rq fails cached hooks first = recover pg (asGet rq) fails cached hooks first := by
-  simp only [recover, handleError_head pg rq fails, hooksAndFinalize_head pg rq cached hooks _ hm]
+theorem recover_head (pg : Pages) (rq : Req) (fails : Bool) (er : ErrResp) (cached : Bool) (hooks : List Step)
+    (first : St × Option Exn) (hm : rq.method = .head) :
+    recover pg rq fails er cached hooks first = recover pg (asGet rq) fails er cached hooks first := by
+  simp only [recover, handleError_head pg rq fails er, hooksAndFinalize_head pg rq cached hooks _ hm]
 
 /-- Nothing before the HEAD removal looks at the difference between GET and HEAD: the finalized
     response, the cache state and the hit flag are *identical*. -/
@@ -320,7 +343,7 @@ theorem respond_head_eq_get (pg : Pages) (rq : Req) (p : Plan) (cache : Option C
   simp only [respond, hfp]
   generalize firstPass pg (asGet rq) p cache = fp
   obtain ⟨first, cached, hooks⟩ := fp
-  simp only [recover_head pg rq p.t.errFails cached hooks first hm]
+  simp only [recover_head pg rq p.t.errFails p.t.errResp cached hooks first hm]
 
 /-- **C06, HEAD part**: HEAD answers with the status, Content-Type and Content-Length the
     corresponding GET commits to, and delivers zero bytes.  (`first` = what the GET's application
@@ -360,13 +383,12 @@ theorem C06_head_nonstream (pg : Pages) (rq : Req) (p : Plan) (cache : Option Ca
       simp only
       split <;> rfl
     rw [← this]; exact hs
-  obtain ⟨hcl, hfr⟩ := hg.1
+  obtain ⟨hcl, hnbf, hfr⟩ := hg.1
   have hfr := hfr hstream
   have hclean : ∃ d, deliver (respond pg (asGet rq) p cache).1.r.body.chunks = (d, .clean) := by
     by_cases hnb : noBody (codeOf (respond pg (asGet rq) p cache).1.r) = true
-    · rw [if_pos hnb] at hfr; rw [hfr.2]; exact ⟨[], rfl⟩
-    · rw [if_neg hnb] at hfr
-      obtain ⟨n, hn⟩ := hfr
+    · rw [(hnbf hnb).2]; exact ⟨[], rfl⟩
+    · obtain ⟨n, hn⟩ := hfr (by simpa using hnb)
       rcases CLok_cases hcl with h0 | h0 | ⟨n', h0, hb, _⟩
       · rw [h0] at hn; cases hn
       · rw [h0] at hn; cases hn
@@ -383,30 +405,81 @@ def pg0 : Pages :=
   { tmpl := fun _ => List.replicate 600 84, custom := none, redir := fun _ => [82], partHead := fun _ _ => [80],
     partTail := [81], bare := [66], z := fun b => 90 :: b, zHead := [90] }
 
-/-- The streamed statement *without* the precondition on the handler. -/
+/-- The streamed statement *without* the precondition on the application. -/
 def C06_stream_full : Prop :=
   ∀ (pg : Pages) (rq : Req) (p : Plan),
     let o := (serve pg rq p none).1
     o.stream = true → ∀ n, o.cl = some (.nat n) → rq.method ≠ .head → o.delivered.length = n
 
-/-- witness: the handler returns the text 'é', sets Content-Length: 2 (right for UTF-8) and streams;
-    tools.encode (streaming branch) keeps that header; the client asked for ISO-8859-1: one byte. -/
+/-- It is false whatever the framework does: a handler that streams three bytes and declares five. -/
+theorem C06_stream_full_false : ¬ C06_stream_full := by
+  intro h
+  have := h pg0 {} { h := { shape := .bytesV [1, 2, 3], setCL := some 5 }, t := { stream := true } }
+    (by decide) 5 (by decide) (by decide)
+  revert this
+  decide
+
+/-- finding C06-F1 — the handler returns the text 'é', sets Content-Length: 2 (right for UTF-8) and streams;
+    the client asked for ISO-8859-1: one byte.  The streaming branch of tools.encode keeps that header on the
+    unchanged code and deletes it once repaired (the flag is read from the live code): the response disagrees
+    with itself exactly as long as the header is kept. -/
 def witnessPlan : Plan :=
   { h := { shape := .strV ['é'], setCL := some 2 }, t := { encode := true, stream := true } }
 def witnessReq : Req := { charsets := [.latin1], dfltOnly := false }
 
-theorem C06_stream_full_false : ¬ C06_stream_full := by
+theorem F1_witness_iff :
+    (let o := (serve pg0 witnessReq witnessPlan none).1
+     o.stream = true ∧ o.cl = some (.nat 2) ∧ o.delivered.length = 1) ↔ Gen.C06.encodeStreamKeepsCL = true := by
+  decide
+
+/-- ... and that witness is exactly what `HandlerOk` excludes as long as the header is kept -/
+example (hk : Gen.C06.encodeStreamKeepsCL = true) : ¬ HandlerOk witnessPlan := by
   intro h
-  have := h pg0 witnessReq witnessPlan (by decide) 2 (by decide) (by decide)
+  rcases h.1 2 rfl with ⟨h1, _⟩ | ⟨_, _, h2⟩
+  · revert h1; decide
+  · have := (h2 hk).1; revert this; decide
+
+/-- once `encode_stream` deletes the header, a text handler with its own length under tools.encode meets
+    `HandlerOk` also when it streams -/
+theorem handlerOk_witness_of_repaired (hk : Gen.C06.encodeStreamKeepsCL = false) : HandlerOk witnessPlan := by
+  refine ⟨fun n _ => .inr ⟨rfl, rfl, fun h => ?_⟩, ⟨fun t ht => (by cases ht), fun t ht => (by cases ht)⟩⟩
+  rw [hk] at h; cases h
+
+/-! ### XML-RPC (finding C06-F2) -/
+
+/-- on the unchanged code (`len(text)`: characters) the declared length is wrong for some text … -/
+theorem xmlrpc_length_false_of_chars (h : Gen.C06.xmlrpcCountsChars = true) : ¬ ∀ t, XmlOk t := by
+  intro hall
+  have := hall ['é']
+  unfold XmlOk xmlLen at this
+  rw [if_pos h] at this
   revert this
   decide
 
-/-- ... and that witness is exactly what `HandlerOk` excludes -/
-example : ¬ HandlerOk witnessPlan := by
-  intro h
-  rcases h 2 rfl with ⟨h1, _⟩ | ⟨_, h2, _⟩
-  · revert h1; decide
-  · revert h2; decide
+/-- … and right for every text once the bytes are counted -/
+theorem xmlOk_of_repaired (h : Gen.C06.xmlrpcCountsChars = false) (t : List Char) : XmlOk t := by
+  unfold XmlOk xmlLen
+  simp [h]
+
+/-- the XML-RPC fault answering an exception whose text is 'é' (tools.xmlrpc's on_error, reached through
+    handle_error, where no encode tool runs): one byte too few is declared exactly as long as characters are
+    counted -/
+theorem F2_witness_iff :
+    (let p : Plan := { h := { shape := .xmlrpcV ['o', 'k'], st := .raiseExc }, t := { errResp := .xmlrpc ['é'] } }
+     let o := (serve pg0 { method := .post } p none).1
+     o.code = 200 ∧ o.stream = false ∧ o.cl = some (.nat 1) ∧ o.delivered.length = 2) ↔
+    Gen.C06.xmlrpcCountsChars = true := by
+  decide
+
+/-- an XML-RPC application whose texts are ASCII (or any application once the bytes are counted) meets the
+    hypothesis, so all the framing theorems apply to it -/
+theorem handlerOk_xmlrpc (t ft : List Char) (tl : Tools) (ht : XmlOk t) (hft : XmlOk ft)
+    (hrh : tl.rhCL = none) (he : tl.errResp = .xmlrpc ft) :
+    HandlerOk { h := { shape := .xmlrpcV t }, t := tl } := by
+  refine ⟨fun n hn => ?_, ⟨fun t' ht' => ?_, fun t' ht' => ?_⟩⟩
+  · simp [ownCL, hrh] at hn
+  · cases ht'; exact .inl ht
+  · rw [he] at ht'; cases ht'; exact hft
 
 /-- The stale / fresh header flow in `caching.get`: a stored copy that is too old for the request's
     `max-age` is ignored *together with its headers* — the regenerated (longer) body goes out with its own
@@ -419,11 +492,11 @@ theorem stale_copy_ignored_with_its_headers :
       [(false, some (.nat 3), 3), (false, some (.nat 5), 5), (true, some (.nat 5), 0)] := by
   decide
 
-/-- The no-body rule is claimed for non-streamed responses only (as in the statement): `finalize`
-    tests `stream` first, so a streamed 204 keeps the body its handler produced. -/
-theorem stream_204_keeps_body :
+/-- The bodiless statuses are stripped for streamed responses too (`finalize` tests them before it looks at
+    `stream`): a handler that picks 204 and streams a body has that body discarded. -/
+theorem stream_204_stripped :
     let o := (serve pg0 {} { h := { shape := .bytesV [1, 2, 3], st := .set 204 }, t := { stream := true } } none).1
-    o.code = 204 ∧ o.stream = true ∧ o.cl = none ∧ o.delivered.length = 3 := by
+    o.code = 204 ∧ o.stream = true ∧ o.cl = none ∧ o.delivered = [] := by
   decide
 
 /-- the last-resort branch is reachable (error_response itself raises) and is framed like any other
@@ -446,14 +519,15 @@ theorem none_length_resolved :
 /-- a handler that sets its own (right) Content-Length meets `HandlerOk` … -/
 example : HandlerOk { h := { shape := .genV [.bytes [1, 2], .bytes [3]], setCL := some 3 },
                       t := { gzip := true, etags := true, caching := true } } := by
-  intro n hn
+  refine ⟨fun n hn => ?_, ⟨fun t ht => (by cases ht), fun t ht => (by cases ht)⟩⟩
   cases hn
   left; decide
 
 /-- … so does a text handler with its own length under the non-streaming encode tool … -/
 example : HandlerOk { h := { shape := .strV ['é'], setCL := some 1 }, t := { encode := true } } := by
-  intro n hn
-  right; decide
+  refine ⟨fun n hn => ?_, ⟨fun t ht => (by cases ht), fun t ht => (by cases ht)⟩⟩
+  right
+  exact ⟨rfl, rfl, fun _ => ⟨rfl, rfl⟩⟩
 
 /-- … and the cache such a plan builds is non-empty and consistent (`CacheOk` is not vacuous) -/
 example : ∃ c, (serve pg0 {} { h := { shape := .bytesV [1, 2, 3] }, t := { caching := true } } none).2 = some c ∧
